@@ -12,7 +12,7 @@ import re
 
 import common as C
 
-SRC_FILES = ['src/order.rs', 'src/shape.rs', 'src/index.rs', 'src/lib.rs', 'src/arithmetic.rs', 'src/iter/iter_mut.rs']
+SRC_FILES = ['src/order.rs', 'src/shape.rs', 'src/index.rs', 'src/lib.rs', 'src/arithmetic.rs', 'src/iter/iter_mut.rs', 'src/swap.rs']
 GEN_DIR = os.path.join(C.BUILD, 'gen')
 
 # which kernel functions each property's theorems rest on
@@ -31,7 +31,8 @@ OBLIGATIONS = {
     'C07': ['AxisIndex_swap', 'AxisIndex_from_flattened', 'AxisIndex_to_flattened'],
     'C08': ['Shape_size', 'Shape_try_to_axis_shape', 'Shape_to_axis_shape_unchecked', 'Matrix_check_size', 'AxisShape_size'],
     'C09': ['Shape_size', 'Shape_try_to_axis_shape', 'Shape_to_axis_shape_unchecked', 'Matrix_reshape', 'Matrix_size', 'AxisShape_size'],
-    'C10': ['AxisIndex_from_index', 'AxisIndex_is_out_of_bounds', 'Matrix_major_stride', 'Matrix_minor_stride', 'Matrix_major', 'Matrix_minor'],
+    'C10': ['AxisIndex_from_index', 'AxisIndex_is_out_of_bounds', 'Matrix_major_stride', 'Matrix_minor_stride', 'Matrix_major', 'Matrix_minor',
+            'Matrix_swap_major_axis_vectors', 'Matrix_swap_minor_axis_vectors', 'Matrix_swap_rows', 'Matrix_swap_cols'],
     'C11': ['Matrix_is_multiplication_like_operation_conformable', 'Matrix_ensure_multiplication_like_operation_conformable', 'Matrix_nrows', 'Matrix_ncols', 'AxisShape_nrows', 'AxisShape_ncols'],
     'C12': ['Matrix_is_elementwise_operation_conformable', 'Matrix_ensure_elementwise_operation_conformable', 'AxisIndex_swap', 'AxisIndex_from_flattened', 'AxisIndex_to_flattened'],
     'C13': ['AxisIndex_from_wrapping_index', 'AxisIndex_to_flattened', 'Matrix_is_empty', 'AxisShape_major', 'AxisShape_minor'],
